@@ -451,6 +451,30 @@ def run(ctx):
                 fails[k] = (v[0], v[1], v[2], v[3] + (cur[3] if cur else 0))
             else:
                 fails[k] = cur[:3] + (cur[3] + v[3], )
+    # two-order constructor Slobodeckij(N_time, N_space) (what the estimator builds from e.g. --estimator-quadrature 5359): the H^1/4
+    # routine must be the rule of order N_time, the H^1/2 routines the rule of order N_space - differential against the single-order
+    # objects, whose exactness the clauses above decide
+    from src.norms import Slobodeckij as _S
+    n_two = 0
+    for n14, n12 in ((1, 7), (3, 11), (5, 9), (9, 5), (11, 3), (7, 1), (21, 15), (15, 21), (23, 21), (23, 5)):
+        try:
+            S2, S14, S12 = _S(n14, n12), build(n14), _S(n12)
+        except Exception as ex:  # noqa: BLE001
+            ctx.violation({'seminorm': 'both', 'N': [n14, n12], 'clause': 'two-orders'}, 'Slobodeckij({}, {}) raised {!r}'.format(n14, n12, ex),
+                          {'kind': 'two-orders', 'orders': [n14, n12]})
+            continue
+        for a_, b_ in ((0.25, 1.75), (-3.0, -2.5), (10.0, 10.0 + 2.0**-6)):
+            for deg in (1, 2, (max(n14, n12) - 1) // 2, (max(n14, n12) + 1) // 2 + 1):
+                f_ = make_f(tuple(range(1, max(1, deg) + 1)))
+                for semi, ref_obj in (('h_1_4', S14), ('h_1_2', S12)):
+                    n_two += 1
+                    got, want = float(call(S2, semi, f_, a_, b_)), float(call(ref_obj, semi, f_, a_, b_))
+                    if not abs(got - want) <= 1e-13 * max(abs(want), 1e-300):
+                        ctx.violation({'seminorm': semi, 'N': [n14, n12], 'clause': 'two-orders'},
+                                      'Slobodeckij({}, {}).seminorm_{} on [{}, {}] of a polynomial of degree {} = {!r}, but the rule of order {} gives {!r}'.format(
+                                          n14, n12, semi, a_, b_, deg, got, n14 if semi == 'h_1_4' else n12, want),
+                                      {'kind': 'two-orders', 'orders': [n14, n12]})
+    counts['two-orders'] = n_two
     for kind, n in per_kind.items():
         if n == 0:
             raise common.HarnessError('family {} yields zero cases'.format(kind))
@@ -501,6 +525,17 @@ def _dispatch(t):
 
 
 def replay(ctx, data):
+    if data.get('kind') == 'two-orders':
+        from src.norms import Slobodeckij as _S
+        n14, n12 = data['orders']
+        f_ = make_f((1, 2, 3))
+        S2 = _S(n14, n12)
+        ok = True
+        for semi, ref_obj in (('h_1_4', build(n14)), ('h_1_2', _S(n12))):
+            g_, w_ = float(call(S2, semi, f_, 0.25, 1.75)), float(call(ref_obj, semi, f_, 0.25, 1.75))
+            print(semi, g_, w_)
+            ok = ok and abs(g_ - w_) <= 1e-13 * abs(w_)
+        return ok
     kind = data['kind']
     if kind == 'construct':
         try:
